@@ -7,6 +7,8 @@ package container
 
 import (
 	"errors"
+	"fmt"
+	"io"
 	"io/fs"
 	"net"
 	"os"
@@ -106,7 +108,9 @@ var W *world
 func (w *world) ep(s *socket) *endpoint { return w.eps[s.Socket] }
 
 var errBroken = errors.New("model: transport lost")
-var errEOF = errors.New("EOF")
+
+// what the framed layer reports when the peer closed its end: the decoder's io.EOF, wrapped
+var errEOF error = errors.New("recv msg: decode: EOF")
 
 // what Go's net package reports for I/O on a connection this process has closed itself
 var errClosed error
@@ -117,6 +121,10 @@ func initErrClosed() {
 		net.ErrClosed = errors.New("use of closed network connection")
 	}
 	errClosed = &net.OpError{Op: "read", Net: "unixpacket", Err: net.ErrClosed}
+	if io.EOF == nil {
+		io.EOF = errors.New("EOF")
+	}
+	errEOF = fmt.Errorf("recv msg: decode: %w", io.EOF)
 	if os.ErrDeadlineExceeded == nil {
 		os.ErrDeadlineExceeded = errors.New("i/o timeout")
 	}
@@ -758,7 +766,7 @@ func (w *world) installFileStubs() {
 		return nil
 	})
 	sym.Intercept("os.Open", func(name string) (*os.File, error) {
-		if sym.Bool("opendir_fails") {
+		if !w.quietFS && sym.Bool("opendir_fails") {
 			return nil, &fs.PathError{Op: "open", Path: name, Err: syscall.EACCES}
 		}
 		f := new(os.File)
@@ -769,20 +777,20 @@ func (w *world) installFileStubs() {
 		return []string{"leftover"}, nil
 	})
 	sym.Intercept("os.Symlink", func(oldname, newname string) error {
-		if sym.Bool("symlink_fails") {
+		if !w.quietFS && sym.Bool("symlink_fails") {
 			return &os.LinkError{Op: "symlink", Old: oldname, New: newname, Err: syscall.EEXIST}
 		}
 		return nil
 	})
 	sym.Intercept("os.Remove", func(name string) error {
-		if sym.Bool("remove_fails") {
+		if !w.quietFS && sym.Bool("remove_fails") {
 			w.lastRemoveFailed = true
 			return &fs.PathError{Op: "remove", Path: name, Err: syscall.ENOENT}
 		}
 		return nil
 	})
 	sym.Intercept("os.RemoveAll", func(name string) error {
-		if sym.Bool("removeall_fails") {
+		if !w.quietFS && sym.Bool("removeall_fails") {
 			return &fs.PathError{Op: "removeall", Path: name, Err: syscall.EACCES}
 		}
 		return nil
